@@ -359,7 +359,7 @@ func c08R3(c *Ctx, id string) {
 		var maxRet *ssa.Return
 		for _, ret := range returnsOf(da) {
 			idx := errResultIndex(da.Signature)
-			if ld, ok := ret.Results[idx].(*ssa.UnOp); ok {
+			if ld, ok := returnedValue(ret, idx).(*ssa.UnOp); ok {
 				if g, ok := ld.X.(*ssa.Global); ok && g.Name() == "ErrMaxSizeReached" {
 					maxRet = ret
 				}
